@@ -80,8 +80,19 @@ def _transformations():
         ('add_estimation_step(IMP)', lambda m: pm.add_estimation_step(m, 'IMP')),
         ('add_individual_parameter', lambda m: pm.add_individual_parameter(m, 'MAT')),
         ('set_evaluation_step', lambda m: pm.set_evaluation_step(m)),
+        ('update_initial_individual_estimates', _with_individual_estimates),
     ]
     return T
+
+
+def _with_individual_estimates(m):
+    import pandas as pd
+    import pharmpy.modeling as pm
+    etas = m.random_variables.etas.names
+    ids = sorted(m.dataset['ID'].unique())
+    ie = pd.DataFrame({e: [0.01 * (i + 1) * (j + 1) for i in range(len(ids))] for j, e in enumerate(etas)},
+                      index=pd.Index([int(x) for x in ids], name='ID'))
+    return pm.update_initial_individual_estimates(m, ie, force=True)
 
 
 COMMUTING_FROM = 17      # index of the first "mostly commuting" transformation (fix/init/bounds/...)
@@ -190,7 +201,7 @@ def node_main(args):
         db = LocalModelDirectoryDatabase(args.store or args.retrieve)
     for i in range(args.start, args.start + args.count):
         tape = Tape(seed=args.batch * 1_000_003 + i)
-        family = ('plain', 'commute', 'rebuild', 'rename', 'differs')[i % 5]
+        family = ('plain', 'commute', 'rebuild', 'rename', 'differs', 'unloaded')[i % 6]
         rec = {'index': i, 'family': family}
         log = []
         k = tape.draw(5, 'history.len')
@@ -250,6 +261,34 @@ def node_main(args):
                 rec['X'] = rec['A']
                 rec['Y'] = _facts(B, ModelHash)
                 rec['must_differ'] = True
+            elif family == 'unloaded':
+                # models whose dataset is not loaded (ModelHash reads it through the datainfo
+                # path): same columns, different files; the key must follow the file content
+                # and must not depend on what was hashed before in this process
+                from pharmpy.modeling import write_csv
+                sdir = os.path.dirname(os.path.abspath(args.out))
+                pa = os.path.join(sdir, f'u{os.getpid()}_{i}_a.csv')     # private to this node
+                pb = os.path.join(sdir, f'u{os.getpid()}_{i}_b.csv')
+                UA = write_csv(A, path=pa, force=True).replace(dataset=None)
+                df = A.dataset.copy()
+                row = tape.draw(len(df), 'unloaded.row')
+                df.loc[df.index[row], 'WGT'] = df.iloc[row]['WGT'] + 0.5
+                UB = write_csv(A.replace(dataset=df), path=pb, force=True).replace(dataset=None)
+                order = tape.draw(2, 'unloaded.order')
+                first, second = (UA, UB) if order == 0 else (UB, UA)
+                k1 = str(ModelHash(first))
+                k2 = str(ModelHash(second))
+                k1_again = str(ModelHash(first))
+                rec['X'] = {'key': k1, 'code_sha': 'unloaded'}
+                rec['Y'] = {'key': k2, 'code_sha': 'unloaded'}
+                rec['change'] = f'dataset file content (row {row}), dataset not loaded'
+                rec['must_differ'] = True
+                rec['again_same'] = k1 == k1_again
+                for p_ in (pa, pb, pa.replace('.csv', '.datainfo'), pb.replace('.csv', '.datainfo')):
+                    try:
+                        os.unlink(p_)
+                    except OSError:
+                        pass
             if db is not None and family == 'plain':
                 from pharmpy.workflows.hashing import ModelHash as MH
                 if args.store:
@@ -259,7 +298,7 @@ def node_main(args):
                 else:
                     try:
                         back = db.retrieve_model(MH(rec['A']['key']))
-                        rec['retrieved'] = _sha(json.dumps(back.to_dict()))
+                        rec['retrieved'] = _sha(back.code)
                     except Exception as e:
                         rec['retrieved'] = f'ERR:{type(e).__name__}:{e}'[:200]
         except Exception as e:
@@ -402,6 +441,10 @@ def compare(batch, nodes_out, hashseeds):
             if a['X']['key'] != a['Y']['key']:
                 viol.append(('C12/key-depends-on-name-or-path',
                              f'model {a["index"]}: name/description/path changed the key', a['index']))
+        if a.get('again_same') is False:
+            viol.append(('C12/key-depends-on-process-history',
+                         f'model {a["index"]}: the same unloaded model hashed twice gives two keys',
+                         a['index']))
         if a.get('must_differ'):
             stats['differ_pairs'] += 1
             if a['X']['key'] == a['Y']['key']:
